@@ -15,151 +15,7 @@ COEFS = ("F", "G", "A", "B", "Fp", "Gp", "Ap", "Bp")
 
 
 # ---------------------------------------------------------------------------
-# C01-R1  closed-form coefficient identities
-def _regime_names(fn):
-    """Bind regime -> partition-vector name from the function's own statements."""
-    names = {}
-    for st in walk_no_nested(fn):
-        if not isinstance(st, ast.Assign) or len(st.targets) != 1:
-            continue
-        t = st.targets[0]
-        v = st.value
-        if isinstance(t, ast.Subscript) and isinstance(t.value, ast.Name) and isinstance(v, ast.Compare) \
-                and len(v.ops) == 1 and isinstance(v.comparators[0], (ast.Constant, ast.UnaryOp)):
-            try:
-                c = float(ast.literal_eval(v.comparators[0]))
-            except Exception:  # noqa
-                continue
-            op = v.ops[0]
-            lhs_abs = isinstance(v.left, ast.Call) and dotted(v.left.func) in ("abs", "np.abs")
-            if lhs_abs and isinstance(op, (ast.Lt, ast.LtE)):
-                names["crit"] = (t.value.id, st, c)
-            elif isinstance(op, (ast.GtE, ast.Gt)) and c > 0:
-                names["under"] = (t.value.id, st, c)
-            elif isinstance(op, (ast.LtE, ast.Lt)) and c < 0:
-                names["over"] = (t.value.id, st, c)
-        elif isinstance(t, ast.Name) and isinstance(v, ast.BinOp) and isinstance(v.op, ast.BitAnd):
-            # pvrb_damped = (abs(C) > cutoff) & pvrb
-            txt = ast.unparse(v)
-            if "abs(" in txt and ">" in txt:
-                names["rbd"] = (t.id, st, None)
-    return names
-
-
-def _enclosing_any(node):
-    """Names X such that node is inside ``if np.any(X):``."""
-    out = []
-    for a in ancestors(node):
-        if isinstance(a, ast.If):
-            t = a.test
-            if isinstance(t, ast.Call) and dotted(t.func) in ("np.any", "any") and len(t.args) == 1 \
-                    and isinstance(t.args[0], ast.Name):
-                # only if node is in the body, not the orelse
-                out.append((t.args[0].id, a))
-    return out
-
-
-def _in_body(ifnode, node):
-    for b in ifnode.body:
-        for n in ast.walk(b):
-            if n is node:
-                return True
-    return False
-
-
-def _extract_regime(ctx, fn, regime, names, m_none=False):
-    h, m, beta, w = F.sym("h"), F.sym("m"), F.sym("beta"), F.sym("w")
-    one = F.const(1)
-    mm = one if m_none else m
-    if regime == "under":
-        wo2 = w * w + beta * beta
-        sign = 1
-    elif regime == "over":
-        wo2 = beta * beta - w * w
-        sign = -1
-    elif regime == "crit":
-        wo2 = beta * beta
-        sign = 0
-    else:
-        wo2 = F.const(0)
-        sign = 0
-    if regime == "rb":
-        b = F.const(0)
-    else:
-        b = 2 * beta * mm
-    k = wo2 * mm
-    target = names[regime][0] if regime in names else None
-
-    def cond(test, ev):
-        txt = ast.unparse(test)
-        if txt == "h is None":
-            return False
-        if txt == "m is None":
-            return m_none
-        if txt in ("rfmodes is not None",):
-            return False
-        if txt == "badrows is not None":
-            return False
-        if isinstance(test, ast.Call) and dotted(test.func) in ("np.any", "any") and len(test.args) == 1 \
-                and isinstance(test.args[0], ast.Name):
-            nm = test.args[0].id
-            if nm == target:
-                return True
-            if nm == "pvel":
-                return regime in ("under", "over", "crit")
-            known = {v[0] for v in names.values()}
-            if nm in known:
-                return False
-            return None
-        if isinstance(test, ast.Attribute) and test.attr == "size":
-            return True
-        return None
-
-    def call(node, ev):
-        d = dotted(node.func)
-        if d in ("abs", "np.abs") and len(node.args) == 1:
-            v = ev.ev(node.args[0])
-            if is_unknown(v):
-                return v
-            # |w2| : the regime fixes the sign of w2 = wo2 - C^2
-            if sign >= 0:
-                return v
-            return -v
-        if isinstance(node.func, ast.Attribute) and node.func.attr == "nonzero":
-            return ev.ev(node.func.value)
-        if d == "SimpleNamespace":
-            return {kw.arg: ev.ev(kw.value) for kw in node.keywords}
-        return NotImplemented
-
-    def accept(base, idx, st):
-        if target is None:
-            return False
-        for nm, ifn in _enclosing_any(st):
-            if nm == target and _in_body(ifn, st):
-                return True
-        return False
-
-    pinned = {"pvrb": F.const(1 if regime in ("rb", "rbd") else 0)}
-    env = {"h": h, "k": k, "b": b}
-    if not m_none:
-        env["m"] = m
-    ev = Evaluator(env=env, cond=cond, src=ctx.src, call=call, store_accept=accept, pinned=pinned)
-    ev.run(fn.body)
-    if not ev.returns:
-        raise AnchorError("get_su_coef has no return")
-    ret = ev.returns[-1][0]
-    if not isinstance(ret, dict):
-        raise Unsupported("get_su_coef does not return SimpleNamespace(F=..., ...)")
-    out = {}
-    for c in COEFS:
-        if c not in ret:
-            raise AnchorError(f"coefficient {c} not returned by get_su_coef")
-        out[c] = ret[c]
-    par = {"m": mm, "b": b, "k": k, "wo2": wo2, "beta": beta if regime != "rb" else F.const(0)}
-    nst = sum(1 for s in ev.stores if accept(s[0], s[1], s[3]))
-    return out, par, nst
-
-
+# C01-R1  closed-form coefficient identities (values extracted per regime by c01_coef / c01_ev.ModeEv)
 def _ode_identities(c, par):
     """The identities (a)-(c) of DESIGN C01-R1, derived from m q'' + b q' + k q = P."""
     m, b, k = par["m"], par["b"], par["k"]
@@ -186,47 +42,99 @@ def _ode_identities(c, par):
     return ids, init
 
 
+def _selector_nodes(ev, par, regime):
+    """the comparisons of a run whose mode side is proportional to w2/wo2 (elastic partition) resp. to beta (damped rigid-body partition):
+    [(node, op, abs?, threshold value)] with the mode quantity on the left"""
+    from .c01_coef import positive_multiple, strip_abs
+    ref = par.get("rat") if regime in ("under", "over") else (par["beta"] if regime == "rbd" else None)
+    out = []
+    if ref is None:
+        return out
+    for node, op, L, R, r in ev.cmp_log:
+        o = type(op)
+        if not (L.depends_on("beta") or L.depends_on("w")):
+            L, R = R, L
+            o = {ast.Lt: ast.Gt, ast.LtE: ast.GtE, ast.Gt: ast.Lt, ast.GtE: ast.LtE}[o]
+        X, has_abs = strip_abs(L)
+        pm = positive_multiple(X, ref)
+        if pm is not None and not (R.depends_on("beta") or R.depends_on("w")):
+            out.append((node, o, has_abs, R, pm, r))
+    return out
+
+
 def r1_coef_identities(ctx):
+    from .c01_coef import run_su_coef, REGIMES
     fn = ctx.src.func(UTIL, "get_su_coef")
-    names = _regime_names(fn)
-    for r in ("under", "crit", "over", "rbd"):
-        if r not in names:
-            raise AnchorError(f"cannot bind the {r} regime partition vector in get_su_coef")
-    # the regime partition itself: under <=> w2/wo2 >= +c ; crit <=> |.| < c ; over <=> <= -c
-    cu, cc, co = names["under"][2], names["crit"][2], names["over"][2]
-    ctx.check(cu == cc == -co and cu > 0, "regime thresholds contiguous (under >= c, |crit| < c, over <= -c)",
-              names["crit"][1], {"under": cu, "crit": cc, "over": co})
-    sets = {}
-    for regime in ("under", "crit", "over", "rbd", "rb"):
+    sets, where = {}, {}
+    sel_all = {}
+    for regime in REGIMES:
         for m_none in (False, True):
             tag = regime + ("/m=None" if m_none else "")
             try:
-                c, par, nst = _extract_regime(ctx, fn, regime, names, m_none)
+                c, par, ev = run_su_coef(ctx, fn, regime, m_none)
                 for x in COEFS:
                     need(c[x], f"{tag} coefficient {x}")
             except Unsupported as e:
                 ctx.error(f"{tag}: extraction", fn, str(e))
                 continue
             sets[(regime, m_none)] = (c, par)
-            where = names[regime][1] if regime in names else fn
+            sel = _selector_nodes(ev, par, regime)
+            if not m_none:
+                sel_all[regime] = sel
+            if regime not in where:
+                hit = [s for s in sel if s[5] is True]
+                where[regime] = hit[0][0] if hit else fn
+    # the regime partition itself: under <=> w2/wo2 >= +c ; crit <=> |.| < c ; over <=> <= -c.  Read from the comparisons of w2/wo2 that the
+    # under-damped mode (positive side) and the over-damped mode (negative side) met: on each side exactly one lower and one upper bound with the
+    # same threshold and opposite strictness (complementary sets), and the two thresholds mirror each other
+    side = {}
+    for regime, sgn in (("under", 1), ("over", -1)):
+        ent = []
+        for node, o, has_abs, T, pm, r in sel_all.get(regime, []):
+            if not T.is_const():
+                continue
+            t = T.const_value()
+            if has_abs:     # |q| with q = pm * c * w2/wo2 on the side of the regime:  |q| = sgn * pm * q
+                pm = pm * sgn * pm
+            if pm < 0:      # the mode quantity is -c * w2/wo2:  -x op t  <=>  x op' -t
+                t = -t
+                o = {ast.Lt: ast.Gt, ast.LtE: ast.GtE, ast.Gt: ast.Lt, ast.GtE: ast.LtE}[o]
+            if t * sgn > 0:
+                ent.append((">" if o in (ast.Gt, ast.GtE) else "<", o in (ast.Gt, ast.Lt), t, node))
+        side[regime] = ent
+    okp = all(len(side[r]) == 2 and {e[0] for e in side[r]} == {">", "<"} and side[r][0][2] == side[r][1][2] and side[r][0][1] != side[r][1][1] for r in side)
+    if not all(len(side[r]) == 2 for r in side):
+        ctx.error("regime thresholds: the comparisons of w2/wo2 that split the elastic modes were not all recognised", fn,
+                  {r: [(e[0], str(e[2])) for e in side[r]] for r in side})
+    else:
+        okp = okp and side["under"][0][2] == -side["over"][0][2] and side["under"][0][2] > 0
+        ctx.check(okp, "regime thresholds contiguous (under >= c, |crit| < c, over <= -c)", side["under"][0][3],
+                  {r: [(e[0], "strict" if e[1] else "non-strict", str(e[2])) for e in side[r]] for r in side})
+    for regime in REGIMES:
+        for m_none in (False, True):
+            if (regime, m_none) not in sets:
+                continue
+            tag = regime + ("/m=None" if m_none else "")
+            c, par = sets[(regime, m_none)]
+            wh = where.get(regime, fn)
             ids, init = _ode_identities(c, par)
             for nm, lhs, rhs in ids:
                 try:
                     ok = lhs.equals(rhs)
                 except Unsupported as e:
-                    ctx.error(f"{tag}: {nm}", where, str(e))
+                    ctx.error(f"{tag}: {nm}", wh, str(e))
                     continue
-                ctx.check(ok, f"{tag}: {nm}", where,
+                ctx.check(ok, f"{tag}: {nm}", wh,
                           None if ok else {"lhs": repr(lhs), "rhs": repr(rhs)})
             for nm, expr, val in init:
                 try:
                     s = F.series(expr, "h", 0)
                     ok = s.val >= 0 and s.coef(0).equals(val)
-                    got = repr(s.coef(0)) if s.val >= 0 else f"pole of order {-s.val}"
+                    got_ = repr(s.coef(0)) if s.val >= 0 else f"pole of order {-s.val}"
                 except Unsupported as e:
-                    ctx.error(f"{tag}: {nm}", where, str(e))
+                    ctx.error(f"{tag}: {nm}", wh, str(e))
                     continue
-                ctx.check(ok, f"{tag}: h->0 limit {nm}", where, None if ok else {"got": got, "want": val})
+                ctx.check(ok, f"{tag}: h->0 limit {nm}", wh, None if ok else {"got": got_, "want": val})
     # (d) regime continuity
     for m_none in (False, True):
         sfx = "/m=None" if m_none else ""
@@ -241,9 +149,9 @@ def r1_coef_identities(ctx):
                         s = F.series(c[x], "w", 0)
                         ok = s.val >= 0 and s.coef(0).equals(crit[x])
                     except Unsupported as e:
-                        ctx.error(f"continuity {r}->crit {x}{sfx}", names[r][1], str(e))
+                        ctx.error(f"continuity {r}->crit {x}{sfx}", where.get(r, fn), str(e))
                         continue
-                    ctx.check(ok, f"continuity: lim w->0 of {r} {x} = critical {x}{sfx}", names[r][1],
+                    ctx.check(ok, f"continuity: lim w->0 of {r} {x} = critical {x}{sfx}", where.get(r, fn),
                               None if ok else {"limit": repr(s.coef(0)) if s.val >= 0 else "singular",
                                                "critical": repr(crit[x])})
         if ("rbd", m_none) in sets and ("rb", m_none) in sets:
@@ -254,130 +162,105 @@ def r1_coef_identities(ctx):
                     s = F.series(c[x], "beta", 0)
                     ok = s.val >= 0 and s.coef(0).equals(rb[x])
                 except Unsupported as e:
-                    ctx.error(f"continuity rbd->rb {x}{sfx}", names["rbd"][1], str(e))
+                    ctx.error(f"continuity rbd->rb {x}{sfx}", where.get("rbd", fn), str(e))
                     continue
-                ctx.check(ok, f"continuity: lim b->0 of damped-rb {x} = undamped-rb {x}{sfx}", names["rbd"][1],
+                ctx.check(ok, f"continuity: lim b->0 of damped-rb {x} = undamped-rb {x}{sfx}", where.get("rbd", fn),
                           None if ok else {"limit": repr(s.coef(0)) if s.val >= 0 else "singular",
                                            "rb": repr(rb[x])})
 
 
 # ---------------------------------------------------------------------------
-def _slice_roots(fn, expr, stop, before_line=None):
-    """names an expression depends on through local assignments, not expanding names in `stop`"""
-    out = set()
-    seen = set()
-    work = [(n.id, getattr(expr, "lineno", 10 ** 9)) for n in ast.walk(expr) if isinstance(n, ast.Name) and isinstance(n.ctx, ast.Load)]
-    assigns = {}
-    for st in walk_no_nested(fn):
-        if isinstance(st, ast.Assign):
-            for t in st.targets:
-                for x in ast.walk(t):
-                    if isinstance(x, ast.Name) and isinstance(x.ctx, ast.Store):
-                        assigns.setdefault(x.id, []).append(st)
-    params = {a.arg for a in fn.args.args}
-    while work:
-        nm, line = work.pop()
-        if (nm, line) in seen:
-            continue
-        seen.add((nm, line))
-        if nm in stop or nm in ("np", "abs", "math", "len", "int", "float"):
-            out.add(nm)
-            continue
-        defs = [d for d in assigns.get(nm, []) if d.lineno < line]
-        if not defs:
-            out.add(nm)
-            continue
-        for d in defs:
-            for n in ast.walk(d.value):
-                if isinstance(n, ast.Name) and isinstance(n.ctx, ast.Load):
-                    work.append((n.id, d.lineno))
-    return out - {"np", "abs", "math", "len", "int", "float"}
-
-
 def r1b_regime_selectors(ctx):
     """Regime selection must be a function of the mass-normalised problem only, otherwise supplying the mass as None / vector /
     matrix (same mathematical problem) would select different formulas; and the near-zero-eigenvalue override of the complex path
-    must not depend on the step (its accumulated error is |lambda| * t, independent of h)."""
+    must not depend on the step (its accumulated error is |lambda| * t, independent of h).  Decided on values: get_su_coef is evaluated for the
+    generic mode of every regime with b = 2 beta m, k = wo2 m; both operands of every mode-selecting comparison must be free of m."""
+    from .c01_coef import run_su_coef, run_complex_coefs, REGIMES
+    from .c01_ev import Sem01, unsym
     fn = ctx.src.func(UTIL, "get_su_coef")
-    NORMAL = {"C", "wo2", "w2", "h", "rbmodes", "rfmodes", "n"}
-    names = _regime_names(fn)
-    preds = []
-    for r in ("under", "crit", "over"):
-        if r in names:
-            preds.append((f"{r}-damped partition", names[r][1].value, names[r][1]))
-    if "rbd" in names:
-        preds.append(("damped rigid-body partition", names["rbd"][1].value, names["rbd"][1]))
-    for st in walk_no_nested(fn):
-        if isinstance(st, ast.Assign) and isinstance(st.targets[0], ast.Name):
-            if st.targets[0].id == "pvdisp":
-                preds.append(("damped rigid-body displacement cut-off", st.value, st))
-            if st.targets[0].id == "pvrb" and any(isinstance(x, ast.Compare) for x in ast.walk(st.value)):
-                preds.append(("auto-detected rigid-body partition", st.value, st))
-    for label, expr, st in preds:
-        roots = _slice_roots(fn, expr, NORMAL)
-        raw = roots & {"m", "b", "k"}
+    seen = {}      # id(node) -> [node, set of raw symbols the operands depend on]
+    for regime in REGIMES:
+        for rb_given in (True, False):
+            try:
+                c, par, ev = run_su_coef(ctx, fn, regime, False, rb_given)
+            except Unsupported as e:
+                ctx.error(f"get_su_coef ({regime}): selectors", fn, str(e))
+                continue
+            for node, op, L, R, r in ev.cmp_log:
+                ent = seen.setdefault(id(node), [node, set(), 0])
+                ent[2] += r is not None
+                for v in (L, R):
+                    if v.depends_on("m"):
+                        ent[1].add("m")
+    nsel = 0
+    for node, raw, decided in seen.values():
+        if not decided:
+            continue          # a comparison that selects nothing for any regime (its result is masked out)
+        nsel += 1
+        label = ast.unparse(node)[:80]
         ok = not raw
-        ctx.check(ok, f"get_su_coef: the {label} depends only on mass-normalised quantities (C = b/2m, wo2 = k/m, w2, h)", st,
-                  None if ok else f"`{ast.unparse(expr)[:80]}` reads the raw {sorted(raw)}: the same system given with a mass vector and with m=None "
-                                  "(mass-normalised b, k) would be sent to different coefficient formulas",
+        ctx.check(ok, f"get_su_coef: the mode selector `{label}` depends only on mass-normalised quantities (C = b/2m, wo2 = k/m, w2, h)", node,
+                  None if ok else f"with b = 2 beta m, k = wo2 m the operands of `{label}` still contain the mass: the same system given with a mass vector and "
+                                  "with m=None (mass-normalised b, k) would be sent to different coefficient formulas",
                   key=f"C01-R1b|get_su_coef|{label}")
-    ctx.check(len(preds) >= 6, f"regime-selector rule bound to {len(preds)} predicates", fn, nontrivial=False)
-    # the damped-rb formulas use beta = 2 C of the selected rows
+    ctx.check(nsel >= 6, f"regime-selector rule bound to {nsel} predicates", fn, nontrivial=False)
+    # ---- complex path
     fn2 = ctx.src.func(SOLVEUNC, "SolveUnc._get_complex_su_coefs")
-    sel = [st for st in walk_no_nested(fn2) if isinstance(st, ast.Assign) and isinstance(st.targets[0], ast.Name) and st.targets[0].id == "rb"]
+    lam, h = F.sym("lam"), F.sym("h")
+    el, ev_el = run_complex_coefs(ctx, fn2, "el")
+    rbv, ev_rb = run_complex_coefs(ctx, fn2, "rbl")
+    sel = {}
+    for ev in (ev_el, ev_rb):
+        for node, op, L, R, r in ev.cmp_log:
+            ent = sel.setdefault(id(node), [node, False, 0])
+            ent[1] = ent[1] or L.depends_on("h") or R.depends_on("h")
+            ent[2] += r is not None
+    sel = [e for e in sel.values() if e[2]]
     if len(sel) != 1:
-        raise AnchorError("_get_complex_su_coefs: `rb = ...` selector")
-    roots = _slice_roots(fn2, sel[0].value, {"lam", "h", "pc", "self"})
-    ok = roots <= {"lam"}
-    ctx.check(ok, "_get_complex_su_coefs: the near-zero-eigenvalue selector depends on lambda only", sel[0],
-              None if ok else f"selector depends on {sorted(roots)}: replacing e^(lambda h) by 1 accumulates an error |lambda| t that does not shrink with h, "
-                              "so a cut-off scaled by h turns slow (non-rigid) modes into pure integrators",
+        raise AnchorError("_get_complex_su_coefs: the near-zero-eigenvalue selector (one comparison of |lambda| with a cut-off)")
+    ok = not sel[0][1]
+    ctx.check(ok, "_get_complex_su_coefs: the near-zero-eigenvalue selector depends on lambda only", sel[0][0],
+              None if ok else f"`{ast.unparse(sel[0][0])[:80]}` depends on h: replacing e^(lambda h) by 1 accumulates an error |lambda| t that does not shrink "
+                              "with h, so a cut-off scaled by h turns slow (non-rigid) modes into pure integrators",
               key="C01-R1b|_get_complex_su_coefs|selector")
     # rigid-body overrides are the lambda -> 0 limits of the elastic formulas (DESIGN C01-R1(e))
-    lam, h = F.sym("lam"), F.sym("h")
-
-    def cond(test, ev):
-        return True if "any()" in ast.unparse(test) else None
-
-    ev = Evaluator(env={"lam": lam, "h": h}, src=ctx.src, cond=cond, store_accept=lambda b_, i, st: i == "el")
-    ev.run(fn2.body)
-    el = {}
-    rbv = {}
-    for b_, idx, val, st in ev.stores:
-        if idx == "el":
-            el[b_] = (val, st)
-        if idx == "rb":
-            rbv[b_] = (val, st)
-    Fe = ev.env.get("Fe")
+    def good(v):
+        return v is not None and not is_unknown(v) and isinstance(v, F.Rat)
     for nm in ("Ae", "Be"):
-        if nm not in el or nm not in rbv or is_unknown(el[nm][0]) or is_unknown(rbv[nm][0]):
-            ctx.error(f"_get_complex_su_coefs: {nm}", fn2)
+        if not good(el.get(nm)) or not good(rbv.get(nm)):
+            ctx.error(f"_get_complex_su_coefs: {nm}", fn2, {"elastic": repr(el.get(nm))[:200], "rigid": repr(rbv.get(nm))[:200]})
             continue
-        sr = F.series(el[nm][0], "lam", 0)
-        ok = sr.val >= 0 and sr.coef(0).equals(rbv[nm][0])
-        ctx.check(ok, f"_get_complex_su_coefs: the rigid-body override of {nm} is the lambda->0 limit of the elastic formula", rbv[nm][1],
-                  None if ok else {"limit": repr(sr.coef(0)) if sr.val >= 0 else "singular", "override": repr(rbv[nm][0])})
-    if "Ae" in el and "Be" in el and not is_unknown(el["Ae"][0]) and not is_unknown(el["Be"][0]):
+        sr = F.series(el[nm], "lam", 0)
+        ok = sr.val >= 0 and sr.coef(0).equals(rbv[nm])
+        ctx.check(ok, f"_get_complex_su_coefs: the rigid-body override of {nm} is the lambda->0 limit of the elastic formula", fn2,
+                  None if ok else {"limit": repr(sr.coef(0)) if sr.val >= 0 else "singular", "override": repr(rbv[nm])})
+    if good(el.get("Ae")) and good(el.get("Be")):
         E = F.exp(lam * h)
-        ok = (el["Ae"][0] + el["Be"][0]).equals((E - 1) / lam)
-        ctx.check(ok, "_get_complex_su_coefs: Ae + Be = (e^(lambda h) - 1)/lambda (constant-force integral)", el["Ae"][1])
+        ok = (el["Ae"] + el["Be"]).equals((E - 1) / lam)
+        ctx.check(ok, "_get_complex_su_coefs: Ae + Be = (e^(lambda h) - 1)/lambda (constant-force integral)", fn2)
         # Be = int_0^h e^{lam (h - t)} t/h dt = (e^{lam h} - 1 - lam h)/(lam^2 h)
-        ok = el["Be"][0].equals((E - 1 - lam * h) / (lam * lam * h))
-        ctx.check(ok, "_get_complex_su_coefs: Be = (e^(lambda h) - 1 - lambda h)/(lambda^2 h) (ramp-force integral)", el["Be"][1],
-                  None if ok else repr(el["Be"][0]))
-    ok = Fe is not None and not is_unknown(Fe) and Fe.equals(F.exp(lam * h))
-    ctx.check(ok, "_get_complex_su_coefs: Fe = e^(lambda h)", fn2)
-    if "Fe" in rbv and not is_unknown(rbv["Fe"][0]):
-        ctx.check(rbv["Fe"][0].equals(1), "_get_complex_su_coefs: the rigid-body override of Fe is 1", rbv["Fe"][1])
+        ok = el["Be"].equals((E - 1 - lam * h) / (lam * lam * h))
+        ctx.check(ok, "_get_complex_su_coefs: Be = (e^(lambda h) - 1 - lambda h)/(lambda^2 h) (ramp-force integral)", fn2,
+                  None if ok else repr(el["Be"]))
+    Fe = el.get("Fe")
+    ok = good(Fe) and Fe.equals(F.exp(lam * h))
+    ctx.check(ok, "_get_complex_su_coefs: Fe = e^(lambda h)", fn2, None if ok else repr(Fe))
+    if good(rbv.get("Fe")):
+        ctx.check(rbv["Fe"].equals(1), "_get_complex_su_coefs: the rigid-body override of Fe is 1", fn2)
+    else:
+        ctx.error("_get_complex_su_coefs: Fe of a near-zero eigenvalue", fn2, repr(rbv.get("Fe")))
     # get_su_eig rigid-body constants equal the undamped rb coefficient set with m = 1:  G = h, A = h^2/3, Ap = h/2
     fn3 = ctx.src.func(SOLVEUNC, "SolveUnc.get_su_eig")
-    ev = Evaluator(env={"self.h": h}, src=ctx.src, cond=lambda t, ev: True if ast.unparse(t) in ("self.rbsize", "h") else None)
-    ev.run(fn3.body)
-    want = {"pc.G": h, "pc.A": h * h / 3, "pc.Ap": h / 2}
+    S = Sem01(ctx, fn3, env={"self.h": h}, truth={"h": True, "self.rbsize": True, "self.elsize": True}, nonnull={"h"})
+    ret = S.ret()
+    roots = [k for k, v in S.ev.env.items() if "." not in k and isinstance(v, F.Rat) and isinstance(ret, F.Rat) and v.equals(ret) and unsym(v) is None]
+    want = {"G": h, "A": h * h / 3, "Ap": h / 2}
     for nm, w in want.items():
-        v = ev.env.get(nm)
-        ok = v is not None and not is_unknown(v) and v.equals(w)
-        ctx.check(ok, f"get_su_eig: {nm} equals the undamped rigid-body coefficient for unit mass ({w})", fn3, None if ok else repr(v))
+        v = None
+        for r in roots:
+            v = S.ev.env.get(f"{r}.{nm}", v)
+        ok = v is not None and not is_unknown(v) and isinstance(v, F.Rat) and v.equals(w)
+        ctx.check(ok, f"get_su_eig: pc.{nm} equals the undamped rigid-body coefficient for unit mass ({w})", fn3, None if ok else repr(v))
 
 
 # ---------------------------------------------------------------------------
